@@ -36,7 +36,7 @@ def program(row, n="{N}"):
     elif pos.startswith("arg-"):
         inner = [f"want_{d}{n}({e})"]
     elif pos.startswith("compound-"):
-        inner = [f"mut m: {T[d]} = {INIT[d][0]}", f"m += {e}", f"want_{d}{n}(m)"]
+        inner = [f"mut m: {T[d]} = {INIT[d][0]}", f"m {row.get('cop', '+')}= {e}", f"want_{d}{n}(m)"]
     else:  # const
         decls += f"\nconst X{n}: {T[d]} = {e}\n"
         inner = [f"want_{d}{n}(X{n})"]
@@ -48,20 +48,6 @@ def expected_value(row):
     if not row["val"]:
         return None
     v = row["val"][0]
-    if row["pos"].startswith("compound-"):
-        # m = init + e, in the declared kind
-        from fractions import Fraction
-        init = INIT[row["declared"]][1]
-        iv = Fraction(init["iv"]) if init["t"] == "int" else Fraction(init["fn"], 2 ** init["fd"])
-        ev = Fraction(v["iv"]) if v["t"] == "int" else Fraction(v["fn"], 2 ** v["fd"])
-        s = iv + ev
-        if row["declared"] == "int":
-            return {"t": "int", "iv": int(s)}
-        # dyadic
-        fd = 0
-        while s.denominator > 2 ** fd:
-            fd += 1
-        return {"t": "float", "fn": int(s * 2 ** fd), "fd": fd}
     return v
 
 
@@ -115,7 +101,7 @@ def run(ctx):
         if ob.get("stage") in ("lex", "parse"):
             raise ToolError(f"rendered C07 program does not parse: {ob.get('errs')}\n{q['src']}")
         real_ok = bool(ob.get("ok"))
-        tags = r["feats"] + ["pos:" + r["pos"]]
+        tags = r["feats"] + ["pos:" + r["pos"]] + (["compound:" + r["cop"] + "="] if r["pos"].startswith("compound-") else []) + (["compound-needs-grouping"] if r.get("cgroup") else [])
         if r["parenexp"]:
             # `x ** (2)`: the documentation does not say whether a parenthesised literal is "a literal";
             # the spec does not decide it - only agreement of the consumers (accepted => builds) is demanded
@@ -135,7 +121,7 @@ def run(ctx):
                 ct = ob.get("const_types", {}).get("X")
                 if ct != r["declared"]:
                     ctx.fail("const-recorded-type", {"e": render.render_expr(r["e"]), "spec": r["declared"], "real": ct}, tags=tags)
-        distinct.add((json.dumps(r["root"], sort_keys=True), r["pos"], r["accept"]))
+        distinct.add((json.dumps(r["root"], sort_keys=True), r["pos"], r.get("cop"), r["accept"]))
     ctx.sample({"case": {k: rows[len(rows) // 2][k] for k in ("pos", "declared", "ty", "accept")},
                 "program": creqs[len(rows) // 2]["src"]})
 
@@ -163,7 +149,7 @@ def run(ctx):
         aborts = bool(r["verr"])
         cases.append({"id": f"n{k}", "decls": decls, "body": body, "aborts": aborts,
                       "expect": {"out": [ev] if ev and not aborts else [], "status": "error" if aborts else "done", "err": r["verr"]},
-                      "tags": r["feats"] + ["pos:" + r["pos"]], "row": r, "judge_value": ev is not None or aborts})
+                      "tags": r["feats"] + ["pos:" + r["pos"]] + (["compound:" + r["cop"] + "="] if r["pos"].startswith("compound-") else []) + (["compound-needs-grouping"] if r.get("cgroup") else []), "row": r, "judge_value": ev is not None or aborts})
     with ctx.timed("e2e"):
         obs = pipeline.run_cases(ctx, cases, per_batch=60)
     n_run = 0
